@@ -166,11 +166,13 @@ Proof.
 Qed.
 
 (* ------------------------------------------------------------------ a weight in [0, 1] *)
-Theorem pct_len_unit round n : 0 <= round -> f64_in_unit n -> pct_len round n <= round + 5.
+Theorem pct_len_unit round n : 0 <= round <= 1000000 -> f64_in_unit n -> pct_len round n <= round + 5.
 Proof.
   intros Hr Hu. destruct n as [|s|s m e]; try contradiction. destruct s; [contradiction|].
   destruct Hu as [Hm Hv].
-  unfold pct_len, pct_num, pct_prec. replace (round <? 0) with false by lia.
+  unfold pct_len, pct_num, pct_prec, pct_badprec.
+  replace (round <? 0) with false by lia. replace (1000000 <? round) with false by lia. cbn [orb].
+  assert (Hr0 : 0 <= round) by lia.
   cbn [f64_mul100].
   assert (Hx : exists q e', f64_round false (m * 100) e = FFin false q e' /\ 0 <= q /\ le100 q e').
   { destruct (Z.eq_dec m 0) as [->|Hm0].
@@ -179,8 +181,8 @@ Proof.
       + apply Z.leb_le in He. pose proof (Z.pow_pos_nonneg 2 e ltac:(lia) He). nia.
       + lia. }
   destruct Hx as (q & e' & -> & Hq & Hle). cbn [fmt_f app].
-  pose proof (f64_scaled_le round q e' Hr Hq Hle) as [HN0 HN].
-  pose proof (fixed_numeral_len (f64_scaled round q e') round Hr) as Hlen.
+  pose proof (f64_scaled_le round q e' Hr0 Hq Hle) as [HN0 HN].
+  pose proof (fixed_numeral_len (f64_scaled round q e') round Hr0) as Hlen.
   assert (H100 : 100 * 10 ^ round = 10 ^ (round + 2)) by (rewrite Z.pow_add_r by lia; change (10 ^ 2) with 100; lia).
   specialize (Hlen ltac:(lia)).
   pose proof (rune_count_le_length (to_string_gen false (mkDec (f64_scaled round q e') (- round)))). lia.
@@ -190,7 +192,8 @@ Lemma unit_fits round n : 0 <= round <= 5 -> f64_in_unit n -> pcell_fits_b round
 Proof.
   intros Hr Hu. pose proof (pct_len_unit round n ltac:(lia) Hu) as Hl.
   cbn [pcell_fits_b]. destruct n as [|s|s m e]; try contradiction. cbn [f64_is_nan].
-  apply andb_true_iff. split; [apply Z.leb_le; lia|apply Z.leb_le; lia].
+  apply andb_true_iff. split; [|apply Z.leb_le; lia].
+  unfold pct_badprec. replace (round <? 0) with false by lia. replace (1000000 <? round) with false by lia. reflexivity.
 Qed.
 
 Theorem weights_text_rect_unit round dates rows :
